@@ -11,7 +11,7 @@ FINDERS = {
     "C08": [("chunk_witness", ["c08"])],
     "C15": [("chunk_witness", ["c15"]), ("session_witness", ["c15"])],
     "C19": [("chunk_witness", ["c19"]), ("amf0_witness", ["c12"]), ("session_witness", ["c19"])],
-    "C03": [("chunk_witness", ["c06"]), ("chunk_witness", ["c01"]), ("amf0_witness", ["c14"]), ("msg_witness", []), ("hs_witness", ["c05"]), ("session_witness", ["c03"])],
+    "C03": [("chunk_witness", ["c03"]), ("chunk_witness", ["c06"]), ("chunk_witness", ["c01"]), ("amf0_witness", ["c14"]), ("msg_witness", []), ("hs_witness", ["c05"]), ("session_witness", ["c03"])],
     "C16": [("c16_interleave", []), ("chunk_witness", ["c16"])],
     "C04": [("amf0_witness", ["c04"])],
     "C12": [("amf0_witness", ["c12"]), ("amf0_witness", ["c04"])],
